@@ -1,2 +1,4 @@
 import HopModel.Props.C14
 import HopModel.Props.C20
+import HopModel.Props.C03
+import HopModel.Props.C15
